@@ -88,7 +88,13 @@ func genWorkload(seed int64, nblocks int) []block {
 	type poolT struct {
 		cl     bool
 		d0, d1 int
+		at     int // block of creation
 	}
+	// A concentrated pool that gets its first position in the block of its creation leaves a twap record that
+	// x/twap's own InitGenesis refuses (listed finding): every state from then on cannot be imported.  Three
+	// workloads out of four therefore wait one block before the first position, so that export/import is
+	// exercised from early blocks on; the fourth keeps exhibiting the finding.
+	sameBlockPositions := seed%4 == 3
 	pools := []poolT{} // predicted: pool ids are 1 + index if every creation succeeds
 	locks, positions, tfdenoms := 0, 0, 0
 	usdc := 3
@@ -136,9 +142,13 @@ func genWorkload(seed int64, nblocks int) []block {
 			if o.D == o.E {
 				o.E = (o.E + 1) % len(denoms)
 			}
+			freshCLExcluded := false
 			pickPool := func(wantCL, wantClassic bool) bool {
 				cands := []int{}
 				for pi, p := range pools {
+					if p.cl && freshCLExcluded && p.at == b && !sameBlockPositions {
+						continue
+					}
 					if (p.cl && wantCL) || (!p.cl && wantClassic) {
 						cands = append(cands, pi)
 					}
@@ -165,7 +175,7 @@ func genWorkload(seed int64, nblocks int) []block {
 				o.C = int64(4 + rng.Intn(locks)) // never the three scripted locks of block 0
 			case r < 31:
 				o.K = "createBalancer"
-				pools = append(pools, poolT{false, o.D, o.E})
+				pools = append(pools, poolT{false, o.D, o.E, b})
 			case r < 36:
 				o.K = "joinPool"
 				if !pickPool(false, true) {
@@ -189,9 +199,10 @@ func genWorkload(seed int64, nblocks int) []block {
 					o.D = 2
 				}
 				o.E = usdc
-				pools = append(pools, poolT{true, o.D, usdc})
+				pools = append(pools, poolT{true, o.D, usdc, b})
 			case r < 76:
 				o.K = "clPosition"
+				freshCLExcluded = true
 				if !pickPool(true, false) {
 					o.K = "send"
 				} else {
